@@ -168,6 +168,47 @@ def decorated(size, depth=3):
                 yield ("C05:%s+readtarget:%s" % (pl, sk_str(b)), src, r.c, r.i)
 
 
+M = ("mark",)
+CONTEXTS = {
+    # name: (builder(inner block) -> block, hole is inside a loop?)
+    "f[H]": (lambda b: (("for", b, ()),), True),
+    "w[H]": (lambda b: (("while", b, ()),), True),
+    "f[m]e[H]": (lambda b: (("for", (M,), b),), False),
+    "w[m]e[H]": (lambda b: (("while", (M,), b),), False),
+    "f[f[m]e[H]]": (lambda b: (("for", (("for", (M,), b),), ()),), True),
+    "f[w[m]e[H]]": (lambda b: (("for", (("while", (M,), b),), ()),), True),
+    "w[f[m]e[H]]": (lambda b: (("while", (("for", (M,), b),), ()),), True),
+    "w[w[m]e[H]]": (lambda b: (("while", (("while", (M,), b),), ()),), True),
+    "f[f[m]e[H]m]e[m]": (lambda b: (("for", (("for", (M,), b), M), (M,)),), True),
+    "f[i[H]m]e[m]": (lambda b: (("for", (("if", b, ()), M), (M,)),), True),
+    "f[i[m]e[H]]": (lambda b: (("for", (("if", (M,), b),), ()),), True),
+    "w[i[H]m]e[m]": (lambda b: (("while", (("if", b, ()), M), (M,)),), True),
+    "f[f[H]]": (lambda b: (("for", (("for", b, ()),), ()),), True),
+    "f[f[H]e[m]m]": (lambda b: (("for", (("for", b, (M,)), M), ()),), True),
+    "w[f[H]e[m]]e[m]": (lambda b: (("while", (("for", b, (M,)),), (M,)),), True),
+    "f[w[H]m]": (lambda b: (("for", (("while", b, ()), M), ()),), True),
+    "i[f[H]e[m]]e[m]": (lambda b: (("if", (("for", b, (M,)),), (M,)),), True),
+    "f[f[f[H]]]": (lambda b: (("for", (("for", (("for", b, ()),), ()),), ()),), True),
+    "f[i[i[H]]m]": (lambda b: (("for", (("if", (("if", b, ()),), ()), M), ()),), True),
+    "i[H]": (lambda b: (("if", b, ()),), False),
+    "i[m]e[H]m": (lambda b: (("if", (M,), b), M), False),
+}
+
+
+def composed(inner_max=3, placements=("module", "function", "class", "method")):
+    """deeper nests: every inner block of size <= inner_max spliced into every context"""
+    for pl in placements:
+        _, in_func = PLACEMENTS[pl]
+        for cname, (build, hole_in_loop) in CONTEXTS.items():
+            for size in range(1, inner_max + 1):
+                for b in blocks(size, 2, hole_in_loop, in_func):
+                    if not has_kind(b, ("break", "continue", "return")):
+                        continue  # interrupt-free inner blocks add nothing beyond the plain universe
+                    full = build(b)
+                    src, r = program(full, pl)
+                    yield ("C05:%s:ctx:%s<%s>" % (pl, cname, sk_str(b)), src, r.c, r.i)
+
+
 EXTRA = {
     # elif chains, dead code after an interrupt (must not run), nested function returns
     "C05:extra:elif3": "if cond(0):\n    mark(0)\nelif cond(1):\n    mark(1)\nelif cond(2):\n    mark(2)\nelse:\n    mark(3)\nmark(99)\n",
